@@ -88,13 +88,13 @@ def model_check(prop):
         r = vlib.tlc("KeyCodecMC", "cfg/KeyCodec/%s.cfg" % IZP_CFG, workers=1, timeout=300, deadlock=False, xmx="2g")
         if r.error:
             raise vlib.CheckBroken(r.error)
-        m = re.search(r'a \|-> (<<.*?>>>>),\s*b \|-> (<<.*?>>>>)', r.out, re.S)
+        m = re.search(r'a \|-> ([^\n]*),\n\s*b \|-> ([^\n]*),\n\s*sem \|-> "none"', r.out)
         boundary = {"cfg": "cfg/KeyCodec/%s.cfg" % IZP_CFG,
                     "what": "texts over {0,1,2,3} (interior zeros and the run-length byte in the alphabet), MaxLen 3: "
                             "documented boundary of C15's domain, NOT a pass/fail gate",
                     "outcome": ("PrefixFree violated as expected" if r.violation and '"PrefixFree"' in r.out
                                 else "unexpected: %s" % (r.violation or "no violation")),
-                    "counterexample": (m.group(0)[:200] if m else None)}
+                    "counterexample": ({"a": m.group(1), "b": m.group(2)} if m else None)}
     return gen, dist, detail, boundary
 
 
